@@ -7,6 +7,11 @@ ALL = [f"C{i:02d}" for i in range(1, 21)]
 HOOK_COMMITS = subprocess.run(["git", "-C", "/repo", "log", "--format=%h %s", "--grep", "^verif hook"], capture_output=True, text=True).stdout.strip().splitlines()
 
 CHECKS = {
+ "C02": dict(
+   category="exploration", design="DESIGN.md §4 C02",
+   technique="proptest-generated operation histories interpreted on stepped OS threads in a fresh child process, compared with a per-thread-stack + global reference model",
+   text="Histories of set_default/with_default(+panic)/set_global_default/emit/get_default/thread end over 4 stepped threads and 4 recording collectors, one fresh process per history because the global default is one-shot; after every emission the recorders must show exactly one delivery to the model's receiver (innermost scope, else global, else none) and none elsewhere; set_global_default must succeed exactly once; get_default/Dispatch::default()/get_current identities are compared too. Half of the cases place the global install strictly inside the history (the position the suite cannot sample).",
+   note="Sequential histories only: racing set_global_default/get_default interleavings are not explored (schedule clause of the quantifier is out of reach of this check). Collectors accept everything so only dispatcher selection is judged. Found and fixed F1 (fix: commit in /repo)."),
  "C19": dict(
    category="exploration", design="DESIGN.md §4 C19",
    technique="exhaustive enumeration of the finite operator/conversion/spelling space + proptest-generated near-miss strings and hint histories against an integer-rank oracle",
